@@ -485,3 +485,49 @@ func registerPebbleHarnessHelpers(in *Interp) {
 		return concStr("2026-01-01T00:00:00Z")
 	}
 }
+
+func init() {
+	vxExtra["vxCrashBeforeCommit"] = func(in *Interp, p *Path, fr *Frame, a []Val, s ssa.CallInstruction) Val {
+		k := argInt(p, a[0])
+		db, ok := p.stubs["pebble.db"].(*Pointer)
+		if !ok {
+			p.end("unsupported", "vxCrashBeforeCommit before the store is opened")
+		}
+		p.stubs["crash.at"] = mkInt(int64(db.model.(*PebbleDB).commits + k))
+		return nil
+	}
+	vxExtra["vxRunUntilCrash"] = func(in *Interp, p *Path, fr *Frame, a []Val, s ssa.CallInstruction) (ret Val) {
+		depth := p.depth
+		defer func() {
+			if r := recover(); r != nil {
+				pe, ok := r.(pathEnd)
+				if !ok || pe.kind != "crash" {
+					panic(r)
+				}
+				p.depth = depth
+				ret = termTrue
+			}
+		}()
+		in.callFunction(p, fr, a[0].(FuncVal), nil, s)
+		delete(p.stubs, "crash.at")
+		return termFalse
+	}
+	vxExtra["vxReopen"] = func(in *Interp, p *Path, fr *Frame, a []Val, s ssa.CallInstruction) Val {
+		delete(p.stubs, "crash.at")
+		if db, ok := p.stubs["pebble.db"].(*Pointer); ok {
+			m := db.model.(*PebbleDB)
+			if p.stubs["crash.hit"] != nil || p.branch(asTerm(a[1])) {
+				m.slots = cloneSlots(m.durable) // unsynced commits do not survive
+			}
+		}
+		return nil
+	}
+	vxExtra["vxInterfere"] = func(in *Interp, p *Path, fr *Frame, a []Val, s ssa.CallInstruction) Val {
+		p.stubs["interfere.fn"] = a[0]
+		delete(p.stubs, "interfere.done")
+		return nil
+	}
+	vxExtra["vxInterfered"] = func(in *Interp, p *Path, fr *Frame, a []Val, s ssa.CallInstruction) Val {
+		return mkBool(p.stubs["interfere.done"] != nil)
+	}
+}
